@@ -87,7 +87,7 @@ theorem preView_eq_preTy (rec : List Json → TokCtx → Nat → Bool) (tyS : St
 theorem preTy_types (rec : List Json → TokCtx → Nat → Bool) (ty : String) (attrsJ rawJ chJ textJ : Option Json)
     (ctx : TokCtx) (d mx : Nat) (h : preTy rec ty attrsJ rawJ chJ textJ ctx d mx = true) :
     ty = "paragraph" ∨ ty = "block_text" ∨ ty = "heading" ∨ ty = "block_code" ∨ ty = "block_html" ∨
-    ty = "thematic_break" ∨ ty = "blank_line" ∨ ty = "block_quote" ∨ ty = "list" ∨ ty = "list_item" := by
+    ty = "thematic_break" ∨ ty = "blank_line" ∨ ty = "block_quote" ∨ ty = "list" ∨ ty = "list_item" ∨ ty = "block_math" ∨ ty = "block_spoiler" := by
   simp only [preTy, preView, String.ofList_toList, Bool.and_eq_true] at h
   have h2 := h.2
   clear h
@@ -101,7 +101,9 @@ theorem preTy_types (rec : List Json → TokCtx → Nat → Bool) (ty : String) 
   by_cases n8 : ty = "block_quote"; · simp [n8]
   by_cases n9 : ty = "list"; · simp [n9]
   by_cases n10 : ty = "list_item"; · simp [n10]
-  simp [n1, n2, n3, n4, n5, n6, n7, n8, n9, n10] at h2
+  by_cases n11 : ty = "block_math"; · simp [n11]
+  by_cases n12 : ty = "block_spoiler"; · simp [n12]
+  simp [n1, n2, n3, n4, n5, n6, n7, n8, n9, n10, n11, n12] at h2
 
 macro "wf_simp" : tactic =>
   `(tactic| simp [wfTy, optHas, optList, inlineTypes,
@@ -111,9 +113,11 @@ macro "wf_simp" : tactic =>
 macro "pre_simp" h:ident : tactic =>
   `(tactic| simp [preTy, preView, optHas, optArr, optStr, optList, isBlockCtx, isItemCtx] at $h:ident)
 
-theorem wfTy_quote (rec : List Json → TokCtx → Nat → Bool) (attrsJ : Option Json) (cs : List Json) (d mx : Nat)
+theorem wfTy_quote (rec : List Json → TokCtx → Nat → Bool) (ty : String) (hty : ty = "block_quote" ∨ ty = "block_spoiler")
+    (attrsJ : Option Json) (cs : List Json) (d mx : Nat)
     (h1 : attrsOkB attrsJ = true) (hd : d + 1 ≤ mx) (hrec : rec cs .block (d + 1) = true) :
-    wfTy rec "block_quote" attrsJ none (some (.arr cs)) none .block d mx = true := by wf_simp
+    wfTy rec ty attrsJ none (some (.arr cs)) none .block d mx = true := by
+  rcases hty with e | e <;> subst e <;> wf_simp
 
 theorem wfTy_list (rec : List Json → TokCtx → Nat → Bool) (attrsJ : Option Json) (cs : List Json) (d mx : Nat)
     (h1 : attrsOkB attrsJ = true) (hd : d + 1 ≤ mx)
@@ -143,10 +147,10 @@ theorem wfTy_heading (rec : List Json → TokCtx → Nat → Bool)
     (hrec : rec cs .inline d = true) :
     wfTy rec "heading" attrsJ none (some (.arr cs)) none .block d mx = true := by wf_simp
 
-theorem wfTy_raw (rec : List Json → TokCtx → Nat → Bool) (ty : String) (hty : ty = "block_code" ∨ ty = "block_html")
+theorem wfTy_raw (rec : List Json → TokCtx → Nat → Bool) (ty : String) (hty : ty = "block_code" ∨ ty = "block_html" ∨ ty = "block_math")
     (attrsJ : Option Json) (raw : Str) (d mx : Nat) (h1 : attrsOkB attrsJ = true) (hd : d ≤ mx) :
     wfTy rec ty attrsJ (some (.str raw)) none none .block d mx = true := by
-  rcases hty with e | e <;> subst e <;> wf_simp
+  rcases hty with e | e | e <;> subst e <;> wf_simp
 
 theorem wfTy_empty (rec : List Json → TokCtx → Nat → Bool) (ty : String) (hty : ty = "thematic_break" ∨ ty = "blank_line")
     (attrsJ : Option Json) (d mx : Nat) (h1 : attrsOkB attrsJ = true) (hd : d ≤ mx) :
@@ -164,19 +168,22 @@ theorem view_container (rec rec' : List Json → TokCtx → Nat → Bool) (ty : 
     (h : preTy rec ty attrsJ rawJ (some (.arr cs)) textJ ctx d mx = true)
     (hrec : ∀ c d', rec cs c d' = true → rec' cs' c d' = true) :
     wfTy rec' ty attrsJ rawJ (some (.arr cs')) textJ ctx d mx = true := by
-  rcases preTy_types _ _ _ _ _ _ _ _ _ h with e | e | e | e | e | e | e | e | e | e
+  rcases preTy_types _ _ _ _ _ _ _ _ _ h with e | e | e | e | e | e | e | e | e | e | e | e
   all_goals subst e
   all_goals cases ctx
   all_goals pre_simp h
   · obtain ⟨⟨a1, a2⟩, ⟨⟨a3, a4⟩, a5⟩, a6⟩ := h
     subst a4 a5
-    exact wfTy_quote _ _ _ _ _ (attrsOkT_B a2) a3 (hrec _ _ a6)
+    exact wfTy_quote _ _ (Or.inl rfl) _ _ _ _ (attrsOkT_B a2) a3 (hrec _ _ a6)
   · obtain ⟨⟨a1, a2⟩, ⟨⟨⟨⟨⟨a3, a4⟩, a5⟩, b1⟩, b2⟩, b3⟩, a6⟩ := h
     subst a4 a5
     exact wfTy_list _ _ _ _ _ (attrsOkT_B a2) a3 b1 b2 b3 (hrec _ _ a6)
   · obtain ⟨⟨a1, a2⟩, ⟨⟨a3, a4⟩, a5⟩, a6⟩ := h
     subst a4 a5
     exact wfTy_item _ _ _ _ _ _ (attrsOkT_B a2) a1 (by simpa using a3) (hrec _ _ a6)
+  · obtain ⟨⟨a1, a2⟩, ⟨⟨a3, a4⟩, a5⟩, a6⟩ := h
+    subst a4 a5
+    exact wfTy_quote _ _ (Or.inr rfl) _ _ _ _ (attrsOkT_B a2) a3 (hrec _ _ a6)
 
 /-- text blocks: `text` is replaced by inline children -/
 theorem view_text (rec rec' : List Json → TokCtx → Nat → Bool) (ty : String) (attrsJ rawJ chJ : Option Json)
@@ -184,7 +191,7 @@ theorem view_text (rec rec' : List Json → TokCtx → Nat → Bool) (ty : Strin
     (h : preTy rec ty attrsJ rawJ chJ (some (.str text)) ctx d mx = true) :
     rawJ = none ∧ chJ = none ∧ d ≤ mx ∧
       ∀ cs, rec' cs .inline d = true → wfTy rec' ty attrsJ none (some (.arr cs)) none ctx d mx = true := by
-  rcases preTy_types _ _ _ _ _ _ _ _ _ h with e | e | e | e | e | e | e | e | e | e
+  rcases preTy_types _ _ _ _ _ _ _ _ _ h with e | e | e | e | e | e | e | e | e | e | e | e
   all_goals subst e
   all_goals cases ctx
   all_goals pre_simp h
@@ -200,7 +207,7 @@ theorem view_leaf (rec rec' : List Json → TokCtx → Nat → Bool) (ty : Strin
     (ctx : TokCtx) (d mx : Nat) (hch : optArr chJ = false) (htx : optStr textJ = false)
     (h : preTy rec ty attrsJ rawJ chJ textJ ctx d mx = true) :
     wfTy rec' ty attrsJ rawJ chJ textJ ctx d mx = true := by
-  rcases preTy_types _ _ _ _ _ _ _ _ _ h with e | e | e | e | e | e | e | e | e | e
+  rcases preTy_types _ _ _ _ _ _ _ _ _ h with e | e | e | e | e | e | e | e | e | e | e | e
   all_goals subst e
   all_goals cases ctx
   all_goals simp [preTy, preView, optHas, hch, htx, optList, isBlockCtx, isItemCtx] at h
@@ -213,13 +220,18 @@ theorem view_leaf (rec rec' : List Json → TokCtx → Nat → Bool) (ty : Strin
     subst a4 a5
     obtain ⟨r, hr⟩ := optStr_inv _ a3
     subst hr
-    exact wfTy_raw _ _ (Or.inr rfl) _ _ _ _ (attrsOkT_B a2) a1
+    exact wfTy_raw _ _ (Or.inr (Or.inl rfl)) _ _ _ _ (attrsOkT_B a2) a1
   · obtain ⟨⟨a1, a2⟩, ⟨a3, a4⟩, a5⟩ := h
     subst a3 a4 a5
     exact wfTy_empty _ _ (Or.inl rfl) _ _ _ (attrsOkT_B a2) a1
   · obtain ⟨⟨a1, a2⟩, ⟨a3, a4⟩, a5⟩ := h
     subst a3 a4 a5
     exact wfTy_empty _ _ (Or.inr rfl) _ _ _ (attrsOkT_B a2) a1
+  · obtain ⟨⟨a1, a2⟩, ⟨a3, a4⟩, a5⟩ := h
+    subst a4 a5
+    obtain ⟨r, hr⟩ := optStr_inv _ a3
+    subst hr
+    exact wfTy_raw _ _ (Or.inr (Or.inr rfl)) _ _ _ _ (attrsOkT_B a2) a1
 
 /-! ### the second pass -/
 
@@ -348,15 +360,16 @@ theorem preTy_shape (rec : List Json → TokCtx → Nat → Bool) (ty : String) 
   have h' := h
   simp only [preTy, preView, String.ofList_toList, Bool.and_eq_true, attrsOkT] at h'
   refine ⟨?_, h'.1.2.2⟩
-  rcases preTy_types _ _ _ _ _ _ _ _ _ h with e | e | e | e | e | e | e | e | e | e <;> subst e <;> decide
+  rcases preTy_types _ _ _ _ _ _ _ _ _ h with e | e | e | e | e | e | e | e | e | e | e | e <;> subst e <;> decide
 
 theorem preTy_children (rec : List Json → TokCtx → Nat → Bool) (ty : String) (attrsJ rawJ textJ : Option Json)
     (cs : List Json) (ctx : TokCtx) (d mx : Nat)
     (h : preTy rec ty attrsJ rawJ (some (.arr cs)) textJ ctx d mx = true) : ∃ c d', rec cs c d' = true := by
-  rcases preTy_types _ _ _ _ _ _ _ _ _ h with e | e | e | e | e | e | e | e | e | e
+  rcases preTy_types _ _ _ _ _ _ _ _ _ h with e | e | e | e | e | e | e | e | e | e | e | e
   all_goals subst e
   all_goals cases ctx
   all_goals pre_simp h
+  · exact ⟨_, _, h.2.2⟩
   · exact ⟨_, _, h.2.2⟩
   · exact ⟨_, _, h.2.2⟩
   · exact ⟨_, _, h.2.2⟩
